@@ -41,9 +41,9 @@ CLAIMS["C15"] = {
     "technique": "Coq proof over executable model + extracted-model correspondence check",
 }
 CLAIMS["C14"] = {
-    "text": "Proof (Coq), partial: the conditional-directive pass generator is fully modelled and proved — every pass is a strictly increasing list of valid non-directive token indices, the passes cover every non-directive token, and without conditional directives there is exactly one identity pass (C14_pass_sorted, C14_passes_cover, C14_single_identity_pass); the model is diffed against the real passes (hook) on every case. The line-level clauses (lines non-empty, strictly increasing, covering every token, exactly once without directives; parent precedes and contains the parent token; one Eof line) are acceptance predicates defined in Coq and evaluated by extracted code on the real parse result of every case — the grammar and consolidate_pass_lines are an oracle here, not a model.",
-    "note": _COMMON_NOTE + "Hook: verif_directive_passes. Grammar = oracle (H-P3).",
-    "technique": "Coq proof (directive passes) + extracted acceptance predicates on the real parser output",
+    "text": "Proof (Coq) for ANY grammar: the conditional-directive pass generator is fully modelled (passes strictly increasing over valid non-directive indices, covering, one identity pass without directives); the parser's line-state kernel — the five primitives proved by a generated inventory to be the only code mutating result_lines / current_line / pass_index — keeps every line strictly increasing and places no token twice for EVERY sequence of primitive events (C14_kernel_lines_wf); composed with consolidation and directive lines: every final line is non-empty, strictly increasing, in range (C14_final_lines_wf) and every token of the file is in at least one line (C14_final_lines_cover) under two side conditions (each pass consumed to its end; skip_token only skips compiler directives) evaluated on every real parse. The kernel model is tied by replaying the hook's event log of every pass of every case against the real pass lines and final lines. Parent and Eof-line clauses (well-formed input) are grammar facts decided by extracted predicates on the real parse result.",
+    "note": _COMMON_NOTE + "Hooks: verif_directive_passes, verif_events (one letter per primitive). The grammar's choice of primitives is an oracle by construction (theorems quantify over all event sequences).",
+    "technique": "Coq proof over all event sequences of the parser kernel + event-log replay correspondence",
 }
 CLAIMS["C04"] = {
     "text": "Proof (Coq), partial by nature: what a theorem can carry is proved — the directive-pass generator is total and the number of passes is at most 2d+1 for d conditional directives (no exponential blow-up, C04_passes_linear, C04_pass_progress); cursor relocation has no reachable underflow and boundary cursors cannot panic in process_cursors. Termination and stack depth of the real grammar recursion and of the wrapper's search are runtime behaviour: decided by a watchdog run over exhaustive token sequences up to length 2 (3 on a sub-alphabet), random soup, mutated seeds with cursor lists, directive-heavy inputs, nesting depth up to 1000, and a directive scaling series, on a build with overflow checks and debug assertions (and on the plain release build in the thorough tier).",
